@@ -35,6 +35,8 @@ def cases(tier):
     C.append(("Normal/default(Identity)", tfd.Normal, dict(loc=0.5, scale=2.0), ("default",), 1.3, ["var", "auto"]))
     # the initial value given as a plain Python int (its image under the inverse bijector is not an integer)
     C.append(("LogNormal/Exp, Python-int initial value", tfd.LogNormal, dict(loc=0.5, scale=1.0), ("instance", lambda: tfb.Exp()), 3, ["var", "auto-default"]))
+    C.append(("Gamma/Exp, latent variable (neither parameter nor observed)", tfd.Gamma, dict(concentration=2.0, rate=0.5), ("instance", lambda: tfb.Exp()), 1.3, ["var"]))
+    C.append(("InverseGamma/default, latent variable (neither parameter nor observed)", tfd.InverseGamma, dict(concentration=2.0, scale=0.5), ("default",), 1.3, ["auto"]))
     C.append(("HalfNormal/Exp", tfd.HalfNormal, dict(scale=1.5), ("instance", lambda: tfb.Exp()), 0.8, ["var"]))
     C.append(("Gamma vector (2,), per_obs=False / Exp", tfd.Gamma, dict(concentration=2.0, rate=0.5), ("instance", lambda: tfb.Exp()), (1.3, 0.6), ["var", "builder", "auto-default"]))
     if tier == "thorough":
@@ -52,7 +54,8 @@ def build(label, D, params, bij, v0, entry):
     dist = lsl.Dist(D, **pv)
     if vec:
         dist.per_obs = False
-    x = lsl.param(jnp.asarray(v0) if vec else v0, dist, name="x")
+    latent = "latent" in label           # a variable that is neither a parameter nor observed: there is no flag to move
+    x = (lsl.Var if latent else lsl.param)(jnp.asarray(v0) if vec else v0, dist, name="x")
     bvars = {}
     gb = lsl.GraphBuilder()
     if bij[0] == "instance":
@@ -111,8 +114,9 @@ def scenario(chk, label, D, params, bij, v0, entry):
         xt, xo = vars_["x_transformed"], vars_["x"]
         if xo.has_dist:
             problems.append("original variable still has a distribution of its own")
-        if not xt.parameter or xo.parameter:
-            problems.append(f"parameter flag not moved (new={xt.parameter}, original={xo.parameter})")
+        was_param = "latent" not in label
+        if xt.parameter != was_param or xo.parameter:
+            problems.append(f"parameter flag not moved (original was {'a' if was_param else 'no'} parameter; afterwards new={xt.parameter}, original={xo.parameter})")
         if not xt.has_dist:
             problems.append("new variable has no distribution")
         after = np.asarray(xo.value)
@@ -167,7 +171,9 @@ def scenario(chk, label, D, params, bij, v0, entry):
         tol = z3.RealVal("1/100000")
         return hyps, z3.And(*[z3.And(a - b <= tol, a - b >= -tol) for a, b in zip(cells(V.out["lp"]), cells(V.out["ref_lp"]))])
     obs.append(Obligation(f"[{name}] new variable's log-density at t = log p(b(t)) + log|db/dt|", [enc], g_lp, signature=f"{name}:density", schemas=sch, timeout_s=60))
-    obs.append(Obligation(f"[{name}] the transformed density is the model's log-prior term (flag moved)", [enc], lambda V: (hyps, cells(V.out["lprior"])[0] == sum(cells(V.out["lp"]))),
+    latent = "latent" in label
+    obs.append(Obligation(f"[{name}] " + ("the original variable was no parameter: the transformed density is no log-prior term either" if latent else "the transformed density is the model's log-prior term (flag moved)"), [enc],
+                          lambda V: (hyps, cells(V.out["lprior"])[0] == (0 if latent else sum(cells(V.out["lp"])))),
                           signature=f"{name}:prior", schemas=sch, timeout_s=60))
     chk.validate(enc)
     return obs
